@@ -455,3 +455,228 @@ pub fn c17_step(_st: &mut C17State, pre: &StoreSnap, post: &StoreSnap, step: &St
     }
     out
 }
+
+// ------------------------------------------------------------------------------------------
+// C03 no free value (per operation)
+// ------------------------------------------------------------------------------------------
+#[derive(Default, Clone)]
+pub struct C03State {
+    pub checked: u64,
+    pub nontrivial: u64,
+    pub max_gain_ulps: f64,
+}
+
+fn pos_of<'a>(s: &'a StoreSnap, acct: &Pubkey, bank: &Pubkey) -> (i128, i128) {
+    s.accts.get(acct).and_then(|a| a.positions.iter().find(|p| p.bank == *bank)).map(|p| (p.a_bits, p.l_bits)).unwrap_or((0, 0))
+}
+
+/// Returns (findings, nontrivial?)
+pub fn c03_step(st: &mut C03State, pre: &StoreSnap, post: &StoreSnap, step: &Step, w: &World) -> (Vec<Finding>, bool) {
+    let mut out = vec![];
+    if !step.ok {
+        return (out, false);
+    }
+    let (Some(bi), Some(acct), Some((_tk, tok_pre, tok_post))) = (step.bank, step.macct, step.user_token) else { return (out, false) };
+    if !matches!(step.op, Op::Deposit { .. } | Op::Withdraw { .. } | Op::Borrow { .. } | Op::Repay { .. }) {
+        return (out, false);
+    }
+    let key = w.banks[bi].key;
+    let (Some(b0), Some(b1)) = (pre.banks.get(&key), post.banks.get(&key)) else { return (out, false) };
+    // the instruction accrues first: values are measured at the share values it transacted at
+    let (a0, l0) = pos_of(pre, &acct, &key);
+    let (a1, l1) = pos_of(post, &acct, &key);
+    let v0 = q_bits(a0) * &b1.asv - q_bits(l0) * &b1.lsv;
+    let v1 = q_bits(a1) * &b1.asv - q_bits(l1) * &b1.lsv;
+    let removed = &v0 - &v1; // > 0 when value left the position
+    let received = q_int(tok_post) - q_int(tok_pre); // > 0 when the user got tokens
+    let vault_in = q_int(b1.vault) - q_int(b0.vault);
+    let u = q_int(8) * ulp() * (q_one() + &b1.asv + &b1.lsv);
+    st.checked += 1;
+    let nontrivial = !(b1.asv == q_one() && b1.lsv == q_one()) && step.amount > 0;
+    if nontrivial {
+        st.nontrivial += 1;
+    }
+    match &step.op {
+        Op::Withdraw { all, .. } | Op::Repay { all, .. } if *all => {
+            if matches!(step.op, Op::Withdraw { .. }) {
+                // full withdrawal rounds down: paid <= floor(exact value of the closed position)
+                let val = q_bits(a0) * &b1.asv;
+                if received > Q::from_integer(q_floor(&val)) {
+                    out.push(finding("value:withdraw-all-rounding", format!("op#{}: withdraw_all paid {} for a position worth {}", step.index, q_str(&received), q_str(&val))));
+                }
+            } else {
+                // full repayment rounds up: tokens that reached the vault >= exact debt (minus ulps)
+                let debt = q_bits(l0) * &b1.lsv;
+                if &vault_in + &u < debt {
+                    out.push(finding("value:repay-all-rounding", format!("op#{}: repay_all brought {} into the vault for a debt of {}", step.index, q_str(&vault_in), q_str(&debt))));
+                }
+            }
+        }
+        _ => {}
+    }
+    if received.is_positive() {
+        // pays a user at most the exact value removed from the position
+        let gain = &received - &removed;
+        if gain > u {
+            out.push(finding(
+                "value:paid-more-than-removed",
+                format!("op#{} {}: user received {} tokens but position value fell by {} (asv {}, lsv {})", step.index, step.op.name(), q_str(&received), q_str(&removed), q_str(&b1.asv), q_str(&b1.lsv)),
+            ));
+        }
+        if gain.is_positive() {
+            st.max_gain_ulps = st.max_gain_ulps.max(q_f64(&(gain / ulp())));
+        }
+    } else {
+        // credits at most the exact value that reached the vault
+        let credited = -removed.clone();
+        let gain = &credited - &vault_in;
+        if gain > u {
+            out.push(finding(
+                "value:credited-more-than-paid",
+                format!("op#{} {}: position value rose by {} but only {} tokens reached the vault", step.index, step.op.name(), q_str(&credited), q_str(&vault_in)),
+            ));
+        }
+        if gain.is_positive() {
+            st.max_gain_ulps = st.max_gain_ulps.max(q_f64(&(gain / ulp())));
+        }
+    }
+    (out, nontrivial)
+}
+
+// ------------------------------------------------------------------------------------------
+// C06(b) interest is applied first: freshness + differential probe + idempotence
+// ------------------------------------------------------------------------------------------
+#[derive(Default, Clone)]
+pub struct C06State {
+    pub probes: u64,
+    pub fresh_checks: u64,
+    pub idem_checks: u64,
+}
+
+fn bank_core_eq(a: &BankSnap, b: &BankSnap) -> Option<&'static str> {
+    if a.asv != b.asv {
+        return Some("asset_share_value");
+    }
+    if a.lsv != b.lsv {
+        return Some("liability_share_value");
+    }
+    if a.a_bits != b.a_bits {
+        return Some("total_asset_shares");
+    }
+    if a.l_bits != b.l_bits {
+        return Some("total_liability_shares");
+    }
+    if a.f_ins != b.f_ins || a.f_grp != b.f_grp || a.f_prog != b.f_prog {
+        return Some("outstanding fees");
+    }
+    if a.vault != b.vault || a.ins_vault != b.ins_vault || a.fee_vault != b.fee_vault {
+        return Some("vault balances");
+    }
+    None
+}
+
+/// Returns (findings, nontrivial?)
+pub fn c06_step(st: &mut C06State, pre: &StoreSnap, post: &StoreSnap, step: &Step, w: &World) -> (Vec<Finding>, bool) {
+    let mut out = vec![];
+    let mut nontrivial = false;
+    if !step.ok || step.skipped {
+        return (out, false);
+    }
+    // banks the instruction transacts in
+    let mut banks: Vec<usize> = vec![];
+    let transacting = match &step.op {
+        Op::Deposit { .. } | Op::Borrow { .. } => step.amount > 0,
+        Op::Withdraw { all, .. } | Op::Repay { all, .. } => *all || step.amount > 0,
+        Op::Liquidate { .. } | Op::Bankrupt { .. } | Op::CloseBalance { .. } | Op::Accrue { .. } | Op::Receivership { .. } | Op::Flash { .. } => true,
+        _ => false,
+    };
+    if !transacting {
+        return (out, false);
+    }
+    if let Some(b) = step.bank {
+        banks.push(b);
+    }
+    if let Some(b) = step.bank2 {
+        if !banks.contains(&b) {
+            banks.push(b);
+        }
+    }
+    // a zero-amount deposit returns early and transacts in nothing
+    if let Op::Deposit { .. } = step.op {
+        if let Some(bi) = step.bank {
+            let k = w.banks[bi].key;
+            if pre.banks.get(&k).map(|b| b.a_bits) == post.banks.get(&k).map(|b| b.a_bits) {
+                return (out, false);
+            }
+        }
+    }
+    let mut stale_any = false;
+    for bi in &banks {
+        let k = w.banks[*bi].key;
+        let (Some(b0), Some(b1)) = (pre.banks.get(&k), post.banks.get(&k)) else { continue };
+        st.fresh_checks += 1;
+        if b1.last_update != post.now {
+            out.push(finding("accrual:stale-after-op", format!("op#{} {}: bank {} last_update {} != clock {}", step.index, step.op.name(), k, b1.last_update, post.now)));
+        }
+        if b0.last_update < post.now && !b0.l_shares.is_zero() && !b0.a_shares.is_zero() {
+            stale_any = true;
+        }
+        // monotone share values over any step
+        if b1.lsv < b0.lsv {
+            out.push(finding("accrual:liability-share-value-decreased", format!("op#{} {}: bank {}", step.index, step.op.name(), k)));
+        }
+        if b1.asv < b0.asv && !matches!(step.op, Op::Bankrupt { .. }) {
+            out.push(finding("accrual:asset-share-value-decreased", format!("op#{} {}: bank {}", step.index, step.op.name(), k)));
+        }
+    }
+    // differential probe: [accrue(banks); op] must equal [op]
+    if stale_any && out.is_empty() {
+        if let Some(pre_vm) = &step.pre_vm {
+            let mut vm = pre_vm.clone();
+            let mut ok = true;
+            for bi in &banks {
+                if vm.exec(&w.ix_accrue(*bi)).is_err() {
+                    ok = false;
+                }
+            }
+            if ok && vm.exec_tx(&step.ixs).ok {
+                st.probes += 1;
+                nontrivial = true;
+                for bi in &banks {
+                    let k = w.banks[*bi].key;
+                    if let (Some(pb), Some(ob)) = (bank_snap(&vm, &k), post.banks.get(&k)) {
+                        if let Some(field) = bank_core_eq(&pb, ob) {
+                            out.push(finding(
+                                "accrual:not-applied-first",
+                                format!("op#{} {}: bank {} ends with a different {} when interest is accrued explicitly first (the instruction transacted against stale share values)", step.index, step.op.name(), k, field),
+                            ));
+                        }
+                    }
+                }
+                for acct in [step.macct, step.other_macct].into_iter().flatten() {
+                    let pa = crate::world::read_macct(&vm, &acct);
+                    let oa = post.accts.get(&acct);
+                    if let (Some(pa), Some(oa)) = (pa, oa) {
+                        let same = pa.lending_account.balances.iter().zip(oa.raw.lending_account.balances.iter()).all(|(x, y)| x.bank_pk == y.bank_pk && x.asset_shares == y.asset_shares && x.liability_shares == y.liability_shares);
+                        if !same {
+                            out.push(finding("accrual:not-applied-first", format!("op#{} {}: account {} ends with different shares when interest is accrued explicitly first", step.index, step.op.name(), acct)));
+                        }
+                    }
+                }
+            }
+        }
+    }
+    // idempotence of accrue at the same timestamp
+    if let (Op::Accrue { .. }, Some(bi)) = (&step.op, step.bank) {
+        let mut vm = w.vm.clone();
+        let before = vm.data(&w.banks[bi].key).to_vec();
+        if vm.exec(&w.ix_accrue(bi)).is_ok() {
+            st.idem_checks += 1;
+            let after = vm.data(&w.banks[bi].key).to_vec();
+            if before != after {
+                out.push(finding("accrual:not-idempotent", format!("op#{}: accruing bank {} twice at the same timestamp changed its bytes", step.index, w.banks[bi].key)));
+            }
+        }
+    }
+    (out, nontrivial)
+}
